@@ -453,9 +453,39 @@ func c14(c *Ctx) {
 			continue
 		}
 		okMask := true
+		// a package-level value that only the package initialiser writes stands for what it was initialised with
+		viaGlobal := func(v ssa.Value) ssa.Value {
+			ld, ok := v.(*ssa.UnOp)
+			if !ok || ld.Op != token.MUL {
+				return v
+			}
+			g, ok := ld.X.(*ssa.Global)
+			if !ok {
+				return v
+			}
+			var stored ssa.Value
+			n := 0
+			for _, fn := range p.Funcs {
+				if fn.Blocks == nil || fn.Pkg != g.Pkg {
+					continue
+				}
+				eachInstr(fn, func(i ssa.Instruction) {
+					if st, ok := i.(*ssa.Store); ok && st.Addr == ssa.Value(g) {
+						n++
+						if isPkgInit(fn) {
+							stored = st.Val
+						}
+					}
+				})
+			}
+			if n == 1 && stored != nil {
+				return stored
+			}
+			return v
+		}
 		for _, ret := range returnsOf(f) {
 			bo := retResult(ret, 0).(*ssa.BinOp)
-			m := bo.Y
+			m := viaGlobal(bo.Y)
 			if bo.Op == token.AND {
 				un, ok := m.(*ssa.UnOp)
 				if !ok || un.Op != token.XOR {
@@ -471,6 +501,7 @@ func c14(c *Ctx) {
 				}
 				break
 			}
+			m = viaGlobal(m)
 			sub, ok := m.(*ssa.BinOp)
 			one, isC := int64(0), false
 			if ok {
@@ -481,6 +512,14 @@ func c14(c *Ctx) {
 				continue
 			}
 			ps := sub.X
+			for {
+				if cv, ok := ps.(*ssa.Convert); ok {
+					ps = cv.X
+					continue
+				}
+				break
+			}
+			ps = viaGlobal(ps)
 			for {
 				if cv, ok := ps.(*ssa.Convert); ok {
 					ps = cv.X
@@ -585,28 +624,6 @@ func c14(c *Ctx) {
 				r.Check(okLen, "C14.W5", cons+" length", p.Pos(posOf(pc.Call)), "one page per step", "the protection change does not cover one page per step")
 			}
 		}
-	}
-	if ps := p.Fn(memPkg, "PageStart"); ps != nil {
-		// addr &^ (pagesize-1)
-		ok := false
-		for _, ret := range returnsOf(ps) {
-			if bo, ok2 := ret.Results[0].(*ssa.BinOp); ok2 && (bo.Op == token.AND || bo.Op == token.AND_NOT) && (bo.X == ssa.Value(ps.Params[0])) {
-				for _, a := range origins(bo.Y) {
-					if a.Kind == "unop" || a.Kind == "binop" || a.Kind == "call" {
-						ok = true
-					}
-				}
-				if dependsOn(bo.Y, func(v ssa.Value) bool {
-					c, ok := v.(*ssa.Call)
-					return ok && calleeName(c.Common()) == "syscall.Getpagesize"
-				}) {
-					ok = true
-				} else {
-					ok = false
-				}
-			}
-		}
-		r.Check(ok, "C14.W5", "PageStart masks with the page size", p.Pos(ps.Pos()), "addr &^ (pagesize-1)", "PageStart does not round the address down to a page boundary")
 	}
 	// ---- W6 reads are copies
 	for _, f := range p.FuncsIn(memPkg) {
